@@ -30,11 +30,21 @@ type c10Msg struct {
 	n       int   // ordinal
 }
 
+// c10Birth is the harness's own record of how a responder-side tunnel came to be: which recorded first message created
+// it and which reply the responder put on the wire for it. Nothing of this is read back from the implementation later
+// (in particular not from HostInfo.HandshakePacket, which the implementation itself uses to recognise a replay).
+type c10Birth struct {
+	msg   int
+	reply []byte
+}
+
 type c10World struct {
 	net  *vnet
 	a, b *vnode
 	msgs []c10Msg
 	seen map[string]bool
+	ord  map[string]int // datagram bytes -> ordinal in msgs
+	born map[*HostInfo]c10Birth
 }
 
 func (w *c10World) record() {
@@ -48,6 +58,7 @@ func (w *c10World) record() {
 			continue
 		}
 		w.seen[k] = true
+		w.ord[k] = len(w.msgs)
 		w.msgs = append(w.msgs, c10Msg{pkt: p, stage: h.MessageCounter, created: vtime.Now().UnixNano(), n: len(w.msgs)})
 	}
 }
@@ -57,14 +68,51 @@ func (w *c10World) run() {
 	w.net.collect()
 	for k := 0; k < 200 && len(w.net.inflight) > 0; k++ {
 		w.record()
+		p := w.net.inflight[0]
+		var h header.H
+		dst := w.net.byUDP[p.To.Addr()]
+		first := dst != nil && h.Parse(p.Data) == nil && h.Type == header.Handshake && h.MessageCounter == 1
+		pre := map[*HostInfo]bool{}
+		nOut := len(w.net.wire)
+		if first {
+			for _, hi := range c10Tunnels(dst) {
+				pre[hi] = true
+			}
+		}
 		w.net.deliverAt(0, false)
+		if first {
+			for _, hi := range c10Tunnels(dst) {
+				if pre[hi] || hi.ConnectionState == nil || hi.ConnectionState.initiator {
+					continue
+				}
+				b := c10Birth{msg: w.ord[string(p.Data)]}
+				for _, o := range w.net.wire[nOut:] { // what the responder wrote while handling this datagram
+					var oh header.H
+					if oh.Parse(o) == nil && oh.Type == header.Handshake && oh.MessageCounter == 2 {
+						b.reply = append([]byte(nil), o...)
+					}
+				}
+				w.born[hi] = b
+			}
+		}
 	}
 	w.record()
 }
 
+func c10Tunnels(n *vnode) []*HostInfo {
+	hmap := n.f.hostMap
+	hmap.RLock()
+	defer hmap.RUnlock()
+	var out []*HostInfo
+	for _, hi := range hmap.Indexes {
+		out = append(out, hi)
+	}
+	return out
+}
+
 func c10New(t testing.TB, seed int64) *c10World {
 	net := vTwoNodes(t, seed)
-	w := &c10World{net: net, a: net.node("a"), b: net.node("b"), seen: map[string]bool{}}
+	w := &c10World{net: net, a: net.node("a"), b: net.node("b"), seen: map[string]bool{}, ord: map[string]int{}, born: map[*HostInfo]c10Birth{}}
 	w.a.hm.StartHandshake(w.b.vpnIP, nil)
 	w.a.settle()
 	w.run()
@@ -102,11 +150,8 @@ func (w *c10World) apply(e string) {
 
 // creator returns the ordinal of the recorded stage-1 message that created hi on a responder (-1: none / initiator side).
 func (w *c10World) creator(hi *HostInfo) int {
-	p0 := hi.HandshakePacket[handshakePacketStage0]
-	for _, mg := range w.msgs {
-		if mg.stage == 1 && len(mg.pkt.Data) > header.Len && bytes.Equal(mg.pkt.Data[header.Len:], p0) && !hi.ConnectionState.initiator {
-			return mg.n
-		}
+	if b, ok := w.born[hi]; ok && !hi.ConnectionState.initiator {
+		return b.msg
 	}
 	return -1
 }
@@ -205,7 +250,7 @@ func TestVerifC10(t *testing.T) {
 					list := append([]*HostInfo(nil), hmap.unlockedGetHostList(peer.vpnIP)...)
 					var holder *HostInfo
 					for _, hi := range list {
-						if mg.stage == 1 && !hi.ConnectionState.initiator && bytes.Equal(hi.HandshakePacket[handshakePacketStage0], mg.pkt.Data[header.Len:]) {
+						if mg.stage == 1 && w.creator(hi) == mg.n {
 							holder = hi
 						}
 					}
@@ -236,7 +281,7 @@ func TestVerifC10(t *testing.T) {
 						for _, o := range out {
 							var oh header.H
 							_ = oh.Parse(o.Data)
-							if bytes.Equal(o.Data, holder.HandshakePacket[handshakePacketStage2]) {
+							if bytes.Equal(o.Data, w.born[holder].reply) {
 								sawReply = true
 							} else if oh.Type == header.Handshake {
 								detail["emitted"] = vDescribe(o.Data)
